@@ -9,6 +9,7 @@ mod checks;
 mod corpus;
 mod ctxfn;
 mod ev;
+mod lexref;
 mod prog;
 mod replay;
 mod rx;
